@@ -34,13 +34,45 @@ type c20Node struct {
 	// class != "": a generated configuration (c20_cfg.go, c20GenSchedules); the hook prints text,
 	// kind (ok | invalid) is its fixed verdict
 	class, text string
+	// link: the entry is a symbolic link (what filepath.Walk's Lstat shows: not a directory, permission
+	// bits 0777). linkTo == "": the link points to a generated script outside the hooks directory
+	// (mode tmode, always with an execute bit); linkTo != "": the verbatim link text (corpus only).
+	link   bool
+	tmode  os.FileMode
+	linkTo string
+	logAs  string // the script logs this name instead of its own relative path (a file reached through a link)
+}
+
+// c20LinkMode: the permission bits Lstat reports for a symbolic link (lrwxrwxrwx)
+const c20LinkMode os.FileMode = 0o777
+
+// c20FailKinds: how a --config run that does not complete successfully ends (<end>:<what it printed>):
+// exit statuses, death by a signal, each with nothing or with a complete valid configuration on stdout
+var c20FailKinds = []struct {
+	tok    string
+	valid  bool // prints a valid configuration first
+	ending string
+	raw    string // != "": the whole content of the file (a run that cannot be started; such a file cannot log its invocation)
+}{
+	{"exit3:none", false, "exit 3", ""},
+	{"exit1:valid", true, "exit 1", ""},
+	{"sig9:none", false, "echo boom >&2\nkill -9 $$", ""},
+	{"sig9:valid", true, "kill -9 $$", ""},
+	{"sig15:valid", true, "kill -TERM $$", ""},
+	{"exit255:valid", true, "exit 255", ""},
+	{"sig11:valid", true, "ulimit -c 0\nkill -SEGV $$", ""},
+	{"sig6:valid", true, "ulimit -c 0\nkill -ABRT $$", ""},
+	{"exit126:none", false, "exit 126", ""},
+	{"sig1:valid", true, "kill -HUP $$", ""},
+	{"nostart-no-interpreter:none", false, "", "#!/nonexistent/interpreter\necho '{\"configVersion\":\"v1\",\"onStartup\":1}'\n"},
+	{"nostart-exec-format:none", false, "", "this file has an execute bit but is neither a script with an interpreter line nor a binary\n"},
 }
 
 var c20FileNames = []string{"a", "b", "c", "hook", "hook.sh", "a.sh", "a-b", "a0", "a.yaml", "b.json", "r.md", "n.txt",
 	".hidden", ".a.sh", "lib", "lib.sh", "x.yaml.sh", "y.YAML", "z.", "yaml", "txt", "json.x", "00-first", "Z", "_u",
-	"a.b.txt", ".yaml", "md", "a.yml", "q.yaml.json", "hook.py", "A.sh"}
+	"a.b.txt", ".yaml", "md", "a.yml", "q.yaml.json", "hook.py", "A.sh", "tmp", "hooks"}
 var c20DirNames = []string{"a", "b", "lib", ".git", ".hid", "sub", "lib2", "xlib", "d.yaml", "a.sh", "001", "conf.d", "Lib",
-	"lib.d", "hook", "n.txt", ".lib", "A"}
+	"lib.d", "hook", "n.txt", ".lib", "A", "tmp", "shell-operator", "hooks", "t"}
 var c20RootNames = []string{"hooks", "hooks", "hooks", "hooks", "lib", ".hooks", ".git", "hooks.d", "lib2", "a.yaml", "h"}
 var c20Modes = []os.FileMode{0o755, 0o755, 0o755, 0o644, 0o700, 0o600, 0o010, 0o001, 0o100, 0o111, 0o666, 0o011, 0o444, 0o000, 0o750, 0o655}
 
@@ -84,10 +116,24 @@ func c20GenDir(rng *Rng, depth int, isRoot bool) []*c20Node {
 		if nd.kind != "fail" && rng.Chance(12) {
 			nd.kind, nd.class, nd.text = c20GenSchedules(rng, nd.kind == "invalid")
 		}
+		c20MaybeLink(rng, nd)
 		out = append(out, nd)
 	}
 	sort.Slice(out, func(i, j int) bool { return out[i].name < out[j].name }) // the order filepath.Walk visits
 	return out
+}
+
+// c20MaybeLink turns 9 % of the generated files into symbolic links to an executable script that lives
+// outside the hooks directory (how a hooks directory looks when it is a mounted ConfigMap / Secret
+// volume or a set of links into a shared checkout). The target always carries an execute bit, so
+// "carries an execute bit" holds for the link (Lstat: 0777) and for the file it leads to.
+func c20MaybeLink(rng *Rng, nd *c20Node) {
+	if !rng.Chance(9) {
+		return
+	}
+	nd.link = true
+	nd.mode = c20LinkMode
+	nd.tmode = PickOne(rng, []os.FileMode{0o755, 0o755, 0o700, 0o555, 0o750, 0o511})
 }
 
 type c20Env struct {
@@ -107,7 +153,15 @@ func (e *c20Env) out(nd *c20Node) c20Out {
 }
 
 func (e *c20Env) script(rel, logPath string, nd *c20Node) string {
+	if nd.kind == "fail" {
+		if fk := c20FailKinds[nd.variant%len(c20FailKinds)]; fk.raw != "" {
+			return fk.raw
+		}
+	}
 	b := &strings.Builder{}
+	if nd.logAs != "" {
+		rel = nd.logAs
+	}
 	fmt.Fprintf(b, "#!/bin/bash\necho %q \"$*\" >> %q\n", rel, logPath)
 	switch nd.kind {
 	case "ok":
@@ -118,20 +172,40 @@ func (e *c20Env) script(rel, logPath string, nd *c20Node) string {
 			fmt.Fprintf(b, "cat <<'EOF_CFG'\n%s\nEOF_CFG\n", o)
 		}
 	case "fail":
-		switch nd.variant % 3 {
-		case 0:
-			b.WriteString("exit 3\n")
-		case 1: // a valid configuration on stdout, but the run fails
-			fmt.Fprintf(b, "cat <<'EOF_CFG'\n%s\nEOF_CFG\nexit 1\n", e.okOut[0].text)
-		case 2:
-			b.WriteString("echo boom >&2\nkill -9 $$\n")
+		fk := c20FailKinds[nd.variant%len(c20FailKinds)]
+		if fk.valid { // a complete valid configuration on stdout, but the run does not end with status 0
+			fmt.Fprintf(b, "cat <<'EOF_CFG'\n%s\nEOF_CFG\n", e.okOut[0].text)
 		}
+		b.WriteString(fk.ending + "\nexit 97\n") // not reached
 	}
 	return b.String()
 }
 
 // writeFile writes one generated hook file (script, then mode).
 func (e *c20Env) writeFile(p, rel, logPath string, nd *c20Node) error {
+	if nd.link {
+		_ = os.Remove(p)
+		if nd.linkTo != "" {
+			return os.Symlink(nd.linkTo, p)
+		}
+		tdir := filepath.Join(filepath.Dir(logPath), "link-targets")
+		if err := os.MkdirAll(tdir, 0o755); err != nil {
+			return err
+		}
+		target := filepath.Join(tdir, strings.ReplaceAll(rel, "/", "%"))
+		_ = os.Chmod(target, 0o600)
+		reg := *nd
+		reg.link, reg.mode = false, nd.tmode
+		if err := e.writeFile(target, rel, logPath, &reg); err != nil {
+			return err
+		}
+		if nd.variant%2 == 1 { // a relative link text
+			if r, err := filepath.Rel(filepath.Dir(p), target); err == nil {
+				target = r
+			}
+		}
+		return os.Symlink(target, p)
+	}
 	// no fork of a concurrent case may happen while the script is open for writing: the child
 	// would inherit the descriptor until its exec and running the script would fail with ETXTBSY
 	syscall.ForkLock.RLock()
@@ -167,14 +241,15 @@ func (e *c20Env) materialise(dir, rel, logPath string, nodes []*c20Node) error {
 	return nil
 }
 
-// kindTok is the outcome token of a file in the tree line: ok | fail | invalid, followed by what
-// exactly the hook prints / does (the Lean driver reads the part before the colon).
+// kindTok is the outcome token of a file in the tree line: ok | invalid followed by what exactly the
+// hook prints, or fail:<how the run ends: exitN | sigN>:<what it printed before: none | valid> (the Lean
+// driver computes the outcome of a `fail` token through its model of execCommandOutput / loadHook).
 func (e *c20Env) kindTok(nd *c20Node) string {
 	switch nd.kind {
 	case "ok", "invalid":
 		return nd.kind + ":" + e.out(nd).class
 	case "fail":
-		return "fail:" + []string{"exit3", "valid-output-then-exit1", "kill9"}[nd.variant%3]
+		return "fail:" + c20FailKinds[nd.variant%len(c20FailKinds)].tok
 	}
 	return nd.kind
 }
@@ -192,7 +267,11 @@ func (e *c20Env) describe(rel string, nodes []*c20Node, toks *[]string, files *[
 			*toks = append(*toks, "u")
 			continue
 		}
-		*toks = append(*toks, "f", nd.name, fmt.Sprintf("%o", uint32(nd.mode)), e.kindTok(nd))
+		if nd.link {
+			*toks = append(*toks, "l", nd.name, e.kindTok(nd))
+		} else {
+			*toks = append(*toks, "f", nd.name, fmt.Sprintf("%o", uint32(nd.mode)), e.kindTok(nd))
+		}
 		*files = append(*files, r)
 	}
 }
@@ -244,18 +323,18 @@ func (e *c20Env) runStarts(r *Run, c *Case, rng *Rng, rootName string, nodes []*
 	base := filepath.Join(r.Scratch, fmt.Sprintf("c%d", c.Idx))
 	workingDir := filepath.Join(base, rootName)
 	logPath := filepath.Join(base, "invocations.log")
-	tmpDir := filepath.Join(base, "tmp")
+	tmpName := c20TmpName(c, rootName, nodes)
 	if err := os.MkdirAll(workingDir, 0o755); err != nil {
 		c.Inconcl = "mkdir: " + err.Error()
 		return
 	}
-	_ = os.MkdirAll(tmpDir, 0o755)
+	_ = os.MkdirAll(c20TmpDir(base, tmpName), 0o755)
 	defer os.RemoveAll(base)
 	if err := e.materialise(workingDir, "", logPath, nodes); err != nil {
 		c.Inconcl = "materialise: " + err.Error()
 		return
 	}
-	if !e.start(r, c, base, rootName, nodes, withInit) {
+	if !e.start(r, c, base, rootName, tmpName, nodes, withInit) {
 		return
 	}
 	for i, st := range later {
@@ -270,20 +349,69 @@ func (e *c20Env) runStarts(r *Run, c *Case, rng *Rng, rootName string, nodes []*
 		for _, w := range strings.Split(what, "+") {
 			c.Note("later-start-after:" + w)
 		}
-		if !e.start(r, c, base, rootName, nodes, withInit) {
+		if !e.start(r, c, base, rootName, tmpName, nodes, withInit) {
 			return
 		}
 	}
 }
 
+// c20TmpDir: the manager's TempDir. It lies outside the hooks directory; only its last path element is
+// chosen per case (c20TmpName).
+// c20TmpFixed: TempDir names of corpus cases (filled before any case runs, read-only afterwards)
+var c20TmpFixed = map[int]string{}
+
+func c20TmpDir(base, tmpName string) string { return filepath.Join(base, "t", tmpName) }
+
+// c20TmpName chooses the last path element of the manager's TempDir. The other settings of the manager
+// are strings too, and which files are hooks must not depend on them: the name is taken from the names
+// that occur in the tree (a visible, non-lib sub-directory at any depth, or a file), from the operator's
+// defaults (`shell-operator`, `tmp`) — both are in the directory-name pool of the generator — or is
+// the name of the hooks directory itself.
+func c20TmpName(c *Case, rootName string, nodes []*c20Node) string {
+	var dirs, files []string
+	c20Count(nodes, func(n *c20Node, _ int) {
+		switch {
+		case n.dir && n.name != "lib" && !strings.HasPrefix(n.name, "."):
+			dirs = append(dirs, n.name)
+		case !n.dir:
+			files = append(files, n.name)
+		}
+	}, 1)
+	if n, ok := c20TmpFixed[c.Idx]; ok {
+		return n
+	}
+	k := c.Idx / 5 // c.Idx % 5 is the spelling of the hooks directory
+	name := "tmp"
+	switch k % 6 {
+	case 0:
+		name = "shell-operator"
+	case 1, 2, 3:
+		if len(dirs) > 0 {
+			name = dirs[(k/6)%len(dirs)]
+			c.Note("tmpdir-named-like:a-sub-directory")
+		}
+	case 4:
+		if len(files) > 0 {
+			name = files[(k/6)%len(files)]
+			c.Note("tmpdir-named-like:a-file")
+		}
+	case 5:
+		name = rootName
+		c.Note("tmpdir-named-like:the-hooks-directory")
+	}
+	return name
+}
+
 // start = what the operator does when it starts: RequireExistingDirectory, the walk, Manager.Init.
-func (e *c20Env) start(r *Run, c *Case, base, rootName string, nodes []*c20Node, withInit bool) bool {
+func (e *c20Env) start(r *Run, c *Case, base, rootName, tmpName string, nodes []*c20Node, withInit bool) bool {
 	workingDir := filepath.Join(base, rootName)
 	logPath := filepath.Join(base, "invocations.log")
-	tmpDir := filepath.Join(base, "tmp")
+	tmpDir := c20TmpDir(base, tmpName)
 	_ = os.Remove(logPath)
 	var toks, files []string
 	e.describe("", nodes, &toks, &files)
+	// the settings of this start other than the tree (part of the failing input of a replay)
+	c.Op("env hooksdir="+rootName+" tmpdir=<scratch>/t/"+tmpName, "ok")
 	line := "tree " + rootName
 	if len(toks) > 0 {
 		line += " " + strings.Join(toks, " ")
@@ -421,6 +549,12 @@ func (e *c20Env) classify(c *Case, rootName string, nodes []*c20Node) {
 			if n.kind != "ok" {
 				bad++
 			}
+			if n.link {
+				c.Note("has-symlink-to-executable")
+			}
+			if n.kind == "fail" && n.mode&0o111 != 0 {
+				c.Note("config-run-fails:" + c20FailKinds[n.variant%len(c20FailKinds)].tok)
+			}
 			if n.kind == "invalid" && n.mode&0o111 != 0 {
 				c.Note("invalid-cfg:" + c20CfgFamily(e.out(n).class))
 			}
@@ -452,7 +586,7 @@ func (e *c20Env) classify(c *Case, rootName string, nodes []*c20Node) {
 }
 
 func runC20(r *Run) {
-	r.Rule = "random directory trees materialised on disk (hooks-directory names incl. lib/.hooks/.git, depth <= 4, 0-7 entries per directory from pools of 32 file names and 18 directory names so that names collide across directories; modes from a biased pool plus uniformly random 9-bit modes incl. group/other-only execute bits; excluded extensions, hidden files, lib/hidden directories at any depth, byte-order traps such as a.sh vs a/b); every file is a bash script that logs its invocation and prints a valid config, an invalid one or fails (exit 3 / valid output then exit 1 / kill -9). Configurations come from a catalogue with FIXED verdicts (calibrated once on the unchanged tree, never asked of the code under test): 71 invalid documents with one defect each (bad crontab of several kinds, unknown field, wrong type, unsupported configVersion, malformed label/field/name selector, unknown or ambiguous includeSnapshotsFrom, ambiguous group, bad settings, admission/conversion defects; 20 of them in the legacy v0 format without configVersion) and 14 valid ones, each printed as JSON and as YAML, 10 malformed outputs, plus generated schedule lists (v0 or v1, JSON or YAML, 1-4 entries, crontabs from calibrated valid/invalid pools). The hooks directory is given in one of five spellings (canonical, trailing slash, /./, name/../name, relative to the current directory) to the real RequireExistingDirectory (as bootstrap.go does), whose answer goes to the real RecursiveGetExecutablePaths, then real hook.Manager.Init. 35% of the random cases perform 2-3 starts in the same process: between starts 1-3 edits (file added / removed / chmod +x / chmod -x / rewritten, sub-directory added / removed; 75% strictly below a sub-directory) or a rebuild of the whole tree at the same path, optionally with the modification time of the hooks directory or of every directory put back; each start has its own tree line and oracles. Fixed-index blocks: every catalogue entry alone between two good hooks (10000+, 20000+), generated schedule lists (30000+). Thorough adds the exhaustive scope {3 root names} x {directory chains of length 0-2 over s/lib/.g} x {8 file names} x {5 modes} plus all 512 modes for one file. Non-trivial: >= 2 files of which some but not all carry an execute bit, or a non-default hooks-directory name with an executable file, or a catalogue / multi-start corpus case; distinct = distinct tree lines."
+	r.Rule = "random directory trees materialised on disk (hooks-directory names incl. lib/.hooks/.git, depth <= 4, 0-7 entries per directory from pools of 32 file names and 18 directory names so that names collide across directories; modes from a biased pool plus uniformly random 9-bit modes incl. group/other-only execute bits; excluded extensions, hidden files, lib/hidden directories at any depth, byte-order traps such as a.sh vs a/b); 9 % of the files are symbolic links to an executable script outside the hooks directory (absolute or relative link text; Lstat shows a non-directory with mode 0777), corpus: the ConfigMap-volume layout hook.sh -> ..data/hook.sh, ..data -> ..<timestamp>/; every file is a bash script that logs its invocation and prints a valid config, an invalid one or whose run does not complete successfully in one of 12 ways (exit 3 / 126 without output, exit 1 / 255 after a complete valid configuration, killed by SIGKILL without output, killed by SIGKILL / SIGTERM / SIGSEGV / SIGABRT / SIGHUP after a complete valid configuration, or cannot be started at all: interpreter line naming a missing interpreter, exec format error — such a file cannot write the invocation log, the oracle does not expect it there). The last path element of the manager's TempDir is chosen per case: shell-operator, tmp, the name of a visible non-lib sub-directory of the tree (50 %), of a file of the tree, or of the hooks directory itself (the pools of directory names contain tmp, shell-operator, hooks). Configurations come from a catalogue with FIXED verdicts (calibrated once on the unchanged tree, never asked of the code under test): 71 invalid documents with one defect each (bad crontab of several kinds, unknown field, wrong type, unsupported configVersion, malformed label/field/name selector, unknown or ambiguous includeSnapshotsFrom, ambiguous group, bad settings, admission/conversion defects; 20 of them in the legacy v0 format without configVersion) and 14 valid ones, each printed as JSON and as YAML, 10 malformed outputs, plus generated schedule lists (v0 or v1, JSON or YAML, 1-4 entries, crontabs from calibrated valid/invalid pools). The hooks directory is given in one of five spellings (canonical, trailing slash, /./, name/../name, relative to the current directory) to the real RequireExistingDirectory (as bootstrap.go does), whose answer goes to the real RecursiveGetExecutablePaths, then real hook.Manager.Init. 35% of the random cases perform 2-3 starts in the same process: between starts 1-3 edits (file added / removed / chmod +x / chmod -x / rewritten, sub-directory added / removed; 75% strictly below a sub-directory) or a rebuild of the whole tree at the same path, optionally with the modification time of the hooks directory or of every directory put back; each start has its own tree line and oracles. Fixed-index blocks: every catalogue entry alone between two good hooks (10000+, 20000+), generated schedule lists (30000+). Thorough adds the exhaustive scope {3 root names} x {directory chains of length 0-2 over s/lib/.g} x {8 file names} x {5 modes} plus all 512 modes for one file. Non-trivial: >= 2 files of which some but not all carry an execute bit, or a non-default hooks-directory name with an executable file, or a catalogue / multi-start corpus case; distinct = distinct tree lines."
 	e := &c20Env{euid: os.Geteuid()}
 	e.okOut = c20Expand(c20GoodCfgs, false)
 	e.badOut = append(c20Expand(c20BadCfgs, false), c20Expand(c20BadRaw, true)...)
@@ -461,7 +595,7 @@ func runC20(r *Run) {
 	// diagnostics only (and warm-up of the loader's schema cache): the verdicts are fixed in c20_cfg.go
 	r.Extra["catalogue_disagreements_of_this_loader"] = append(c20Disagreements(e.okOut, true), c20Disagreements(e.badOut, false)...)
 	r.Extra["euid"] = e.euid
-	r.Extra["symlinks"] = "not generated: filepath.Walk uses Lstat, symlink behaviour is observed only (see notes/C20.md)"
+	r.Extra["symlinks"] = "generated: links to executable files (9 % of the files; Lstat shows a non-directory with mode 0777); links to non-executable files and to directories are observed only (see notes/C20.md)"
 	// symbolic links: observed only (outside the model): what does the walk return for a link to an
 	// executable file, a link to a non-executable file and a link to a directory with a hook inside?
 	func() {
@@ -554,6 +688,48 @@ func runC20(r *Run) {
 			c.Nontrivial = true
 			c.Note("starts:2")
 			e.runFixedStarts(r, c, "hooks", mc.nodes, mc.after)
+		})
+	}
+	// corpus, third part (indices after the multi-start cases)
+	lnk := func(name, kind string) *c20Node {
+		return &c20Node{name: name, kind: kind, link: true, mode: c20LinkMode, tmode: 0o755}
+	}
+	corpus3 := []struct {
+		desc  string
+		tmp   string
+		nodes []*c20Node
+	}{
+		{"corpus: the hooks directory is a mounted ConfigMap volume: hook.sh -> ..data/hook.sh, ..data -> ..<timestamp>/ (the real file lies below a hidden directory), plus a regular hook", "tmp",
+			[]*c20Node{d("..2026_09_30_10_00_00.0123456789", &c20Node{name: "hook.sh", mode: 0o755, kind: "ok", logAs: "hook.sh"}),
+				{name: "..data", kind: "ok", link: true, mode: c20LinkMode, linkTo: "..2026_09_30_10_00_00.0123456789"},
+				{name: "hook.sh", kind: "ok", link: true, mode: c20LinkMode, linkTo: "..data/hook.sh"},
+				d("sub", f("plain.sh", 0o755, "ok"))}},
+		{"corpus: links to executables outside the hooks directory, at the top and below a sub-directory, a lib and a hidden directory; one with an excluded extension, one hidden", "tmp",
+			[]*c20Node{lnk("010-link", "ok"), d("sub", lnk("b.sh", "ok"), f("c.sh", 0o644, "ok")), d("lib", lnk("x", "fail")), d(".g", lnk("y", "fail")),
+				lnk("cfg.yaml", "fail"), lnk(".hid", "fail"), lnk("zz-bad", "invalid")}},
+		{"corpus: the --config run of the second hook prints a valid configuration and is then killed (SIGKILL)", "tmp",
+			[]*c20Node{f("a.sh", 0o755, "ok"), d("sub", &c20Node{name: "b.sh", mode: 0o755, kind: "fail", variant: 3}), f("z.sh", 0o755, "ok")}},
+		{"corpus: the --config run of the first hook prints a valid configuration and dies of SIGSEGV", "tmp",
+			[]*c20Node{{name: "00-native", mode: 0o755, kind: "fail", variant: 6}, f("zz", 0o755, "ok")}},
+		{"corpus: sub-directories named like the last path element of the temp directory (operator default /tmp/shell-operator)", "shell-operator",
+			[]*c20Node{f("a.sh", 0o755, "ok"), d("shell-operator", f("b.sh", 0o755, "ok")), d("sub", d("shell-operator", d("deep", f("c.sh", 0o755, "ok"))))}},
+		{"corpus: the second hook cannot be started (its interpreter line names a missing interpreter), the third would be fine", "tmp",
+			[]*c20Node{f("a.sh", 0o755, "ok"), {name: "b.rb", mode: 0o755, kind: "fail", variant: 10}, f("z.sh", 0o755, "ok")}},
+		{"corpus: a link to a file with an execute bit that is not executable (exec format error) is the first hook", "tmp",
+			[]*c20Node{{name: "00-data", kind: "fail", variant: 11, link: true, mode: c20LinkMode, tmode: 0o755}, f("zz", 0o755, "ok")}},
+		{"corpus: sub-directory named tmp, temp directory <…>/tmp; a file named like the hooks directory", "tmp",
+			[]*c20Node{d("tmp", f("hook", 0o755, "ok")), d("hooks", f("hooks", 0o755, "ok")), f("tmp.sh", 0o755, "ok")}},
+	}
+	for i, cc := range corpus3 {
+		cc := cc
+		idx := len(corpus) + len(multi) + i
+		c20TmpFixed[idx] = cc.tmp
+		r.One(idx, func(c *Case, _ *Rng) {
+			c.Desc = cc.desc
+			c20SortDeep(cc.nodes)
+			e.classify(c, "hooks", cc.nodes)
+			c.Nontrivial = true
+			e.runCase(r, c, "hooks", cc.nodes, true)
 		})
 	}
 	n := r.N(1200, 8000)
